@@ -199,7 +199,7 @@ def run(tier, seed):
     chx.absorb(chk, H, res)
     from vf.par import pmap
     cases = e2_cases(tier)
-    E2_BUDGET[0] = 60 if tier == 'quick' else 900
+    E2_BUDGET[0] = 60 if tier == 'quick' else 400
     for st, o in pmap(e2_case, cases):
         if st != 'ok':
             chk.harness_errors.append(o[:800])
